@@ -241,7 +241,8 @@ ClausesOf(p) ==
     [] p = "C04" -> {"Succeeds", "PlantedValid", "FDExact", "NodesOfG", "EdgesOfG", "StartsOK", "EndsOK",
                      "ConstraintsHonoured", "ObjIsCount", "OneWeightPerRoute"}
     [] p = "C05" -> {"NoCrash"}
-    [] p = "C11" -> {"NodesOfG", "EdgesOfG", "StartsOK", "EndsOK", "SimpleIfDAG", "NoCrashPlain"}
+    [] p = "C11" -> {"NodesOfG", "EdgesOfG", "StartsOK", "EndsOK", "SimpleIfDAG", "NoCrashPlain",
+                     "NoEmptyRoute", "OneWeightPerRoute", "FDExact", "Covers"}      \* (what comes back in node mode is a full answer)
     [] p = "C19" -> {"AcceptedWithoutError"}
     [] p = "C07" -> {"LAEErrors", "LAEObjective", "SelfCheckAccepts", "ExactlyK", "OneWeightPerRoute"}
     [] p = "C08" -> {"Succeeds", "MPEInequality", "MPEObjective", "OneSlackPerRoute", "OneWeightPerRoute", "NonNegative",
